@@ -1137,6 +1137,21 @@ type recEvent struct {
 	maskOK   bool
 	targetAt ecs.Entity
 	targetOK bool
+	others   []otherAt // what the other entities look like at delivery (non-removal events)
+	vals     []valAt   // component values of the entity at delivery (non-removal events)
+}
+
+type otherAt struct {
+	slot   int
+	mask   ecs.Mask
+	target ecs.Entity
+	hasTgt bool
+}
+
+type valAt struct {
+	ci  int
+	val uint64
+	err error
 }
 
 type recListener struct {
@@ -1171,6 +1186,30 @@ func (l *recListener) Notify(w *ecs.World, e ecs.EntityEvent) {
 		if e.NewRelation != nil && !e.Contains(event.EntityRemoved) {
 			re.targetAt = w.Relations().Get(e.Entity, *e.NewRelation)
 			re.targetOK = true
+		}
+		if e.Contains(event.EntityRemoved) {
+			return
+		}
+		r := l.r
+		for ci, k := range r.cfg.Comps {
+			if k.HasValue() && re.maskAt.Get(r.ids[ci]) {
+				v, err := readValue(k, w.Get(e.Entity, r.ids[ci]))
+				re.vals = append(re.vals, valAt{ci: ci, val: v, err: err})
+			}
+		}
+		// the model still holds the state before the operation
+		for s := range r.m.Slots {
+			me := &r.m.Slots[s]
+			if !me.Alive || me.H == e.Entity || !w.Alive(me.H) {
+				continue
+			}
+			o := otherAt{slot: s, mask: w.Mask(me.H)}
+			for ci, k := range r.cfg.Comps {
+				if k.IsRel() && o.mask.Get(r.ids[ci]) {
+					o.target, o.hasTgt = w.Relations().Get(me.H, r.ids[ci]), true
+				}
+			}
+			re.others = append(re.others, o)
 		}
 	}()
 	l.events = append(l.events, re)
@@ -1330,9 +1369,48 @@ func (l *recListener) verify(old, neu *Model, op wx.Op) *wx.Failure {
 			if x.newRel >= 0 && (!ev.targetOK || ev.targetAt != x.newTgt) {
 				return bad("new-target", fmt.Sprintf("event for %v: target at delivery = %v, expected %v", x.h, ev.targetAt, x.newTgt))
 			}
+			// events are delivered after the operation (for batches: after the whole batch): everything is in its final state
+			if s := r.slotOfIn(neu, x.h); s >= 0 {
+				for _, va := range ev.vals {
+					if va.err != nil || va.val != neu.Slots[s].Val[va.ci] {
+						return bad("early-values", fmt.Sprintf("event for %v: component %s reads %#x at delivery, the operation leaves %#x", x.h, r.cfg.Comps[va.ci], va.val, neu.Slots[s].Val[va.ci]))
+					}
+				}
+			}
+			for _, o := range ev.others {
+				n := &neu.Slots[o.slot]
+				if !n.Alive {
+					continue
+				}
+				if o.mask != toMask2(r, n.Has) {
+					return bad("during-batch", fmt.Sprintf("event for %v delivered before the operation was complete: %v does not have its final components yet", x.h, n.H))
+				}
+				if rel := neu.relOf(n.Has); rel >= 0 && (!o.hasTgt || o.target != n.Target) {
+					return bad("during-batch-target", fmt.Sprintf("event for %v delivered before the operation was complete: %v does not have its final target yet (%v, final %v)", x.h, n.H, o.target, n.Target))
+				}
+			}
 		}
 	}
 	return nil
+}
+
+func toMask2(r *Run, has uint8) ecs.Mask {
+	var m ecs.Mask
+	for ci := range r.cfg.Comps {
+		if has&(1<<ci) != 0 {
+			m.Set(r.ids[ci], true)
+		}
+	}
+	return m
+}
+
+func (r *Run) slotOfIn(m *Model, h ecs.Entity) int {
+	for s := range m.Slots {
+		if m.Slots[s].H == h && m.Slots[s].Alive {
+			return s
+		}
+	}
+	return -1
 }
 
 func popcount(b uint8) int {
